@@ -672,6 +672,46 @@ Example C10_example_raw_reobserve :
   xreobserve ex8_cfg (Some 1254) (Some 1300) (Some (mkXRcpt 1 (Some 1000) [Some ex8_log])) (Some 1600000007) = [].
 Proof. vm_compute. repeat apply conj; reflexivity. Qed.
 
+(* ================================================================================================================================
+   Extension X10 - the re-observation path as the WATCHER ORACLE of the re-observation loop (model/ReobsLoop.v).  [Closure.evm_watch]
+   (model/Closure.v) answers a request of the loop with the messages [xreobserve] forwards for the node's answers (head before /
+   after, receipt, block time: [Closure.evm_ans]), as the processor receives them ([Closure.evm_pub]: common.MessagePublication with
+   whole-second timestamp), for the chains node.go wires to an EVM watcher.  Its contract is the re-observation theorem above; the
+   loop-level consequence (through the loop the processor signs only such messages) is props/C14.v
+   C14_loop_signs_only_confirmed_evm_messages. *)
+From WH Require model.Vaa model.Closure proofs.ClosureProofs2.
+
+Theorem C10_evm_oracle_chains_are_the_wired_ones : Closure.evm_chains = [2; 4].
+Proof. exact ClosureProofs2.evm_chains_are. Qed.
+
+(* every message the oracle answers is the content of ONE log of the receipt the node served - emitted by the configured core contract,
+   topics [event id; sender], unpacked by UnpackLog - out of a STATUS-1 receipt, stamped with the time of the receipt's block, and the
+   receipt's block (plus the consistency level when the watcher waits for confirmations) is not above the non-zero head the watcher
+   read BEFORE it asked for the receipt *)
+Theorem C10_evm_reobservation_oracle_contract : forall c a m, In m (Closure.evm_reobs_msgs c a) ->
+  exists hd r t blk l e,
+    Closure.ea_hb a = Some hd /\ Closure.ea_rc a = Some r /\ xr_status r = 1 /\ Closure.ea_bt a = Some t /\ xr_blk r = Some blk /\
+    In (Some l) (xr_logs r) /\ rl_addr l = xc_contract c /\ (exists t1, rl_topics l = [evm_abi_lmp_id; t1]) /\ decode_log l = DOk e /\
+    m = Closure.evm_pub (message_of_log (xc_chain c) l t e) /\
+    u64 hd <> 0 /\ u64 (u64 blk + (if xc_wait c then x_cl e else 0)) <= u64 hd.
+Proof. exact ClosureProofs2.evm_reobs_contract. Qed.
+
+Theorem C10_evm_watch_oracle_contract : forall ecfg enode other c r t m, Closure.is_evm_chain c = true ->
+  In m (Closure.evm_watch ecfg enode other c r t) -> ClosureProofs2.evm_confirmed (ecfg c) (enode c r t) m.
+Proof. exact ClosureProofs2.evm_watch_contract. Qed.
+
+(* computed (boundary values): a status-1 receipt in block 1000 with one core-contract log, level 1, waiting for confirmations: answered
+   with the log's message for heads 1255 and 1001 (exactly deep enough), with nothing for head 1000, for status 0, for no receipt *)
+Example C10_evm_oracle_example :
+  Closure.evm_reobs_msgs ClosureProofs2.cx_cfg ClosureProofs2.cx_ans = [ClosureProofs2.cx_m] /\
+  Vaa.m_echain ClosureProofs2.cx_m = 2 /\ Vaa.m_seq ClosureProofs2.cx_m = 5 /\ Vaa.m_payload ClosureProofs2.cx_m = [Byte.x01; Byte.x02] /\
+  Vaa.m_tx ClosureProofs2.cx_m = ClosureProofs2.cx_tx /\ Vaa.m_tns ClosureProofs2.cx_m = 0 /\
+  Closure.evm_reobs_msgs ClosureProofs2.cx_cfg {| Closure.ea_hb := Some 1000; Closure.ea_ha := Some 1300; Closure.ea_rc := Closure.ea_rc ClosureProofs2.cx_ans; Closure.ea_bt := Closure.ea_bt ClosureProofs2.cx_ans |} = [] /\
+  Closure.evm_reobs_msgs ClosureProofs2.cx_cfg {| Closure.ea_hb := Some 1001; Closure.ea_ha := Some 1001; Closure.ea_rc := Closure.ea_rc ClosureProofs2.cx_ans; Closure.ea_bt := Closure.ea_bt ClosureProofs2.cx_ans |} = [ClosureProofs2.cx_m] /\
+  Closure.evm_reobs_msgs ClosureProofs2.cx_cfg {| Closure.ea_hb := Some 1255; Closure.ea_ha := Some 1255; Closure.ea_rc := Some (mkXRcpt 0 (Some 1000) [Some ClosureProofs2.cx_log]); Closure.ea_bt := Closure.ea_bt ClosureProofs2.cx_ans |} = [] /\
+  Closure.evm_reobs_msgs ClosureProofs2.cx_cfg ClosureProofs2.cx_none = [].
+Proof. exact ClosureProofs2.ex_evm_oracle. Qed.
+
 Print Assumptions C10_scan_forward_safe.
 Print Assumptions C10_scan_step_safe.
 Print Assumptions C10_reobserve_safe.
@@ -712,3 +752,6 @@ Print Assumptions C10_reobserved_message_is_log_content.
 Print Assumptions C10_malformed_log_ends_run_and_leaves_pending_untouched.
 Print Assumptions C10_topicless_log_panics.
 Print Assumptions C10_malformed_log_in_receipt_forwards_nothing.
+Print Assumptions C10_evm_oracle_chains_are_the_wired_ones.
+Print Assumptions C10_evm_reobservation_oracle_contract.
+Print Assumptions C10_evm_watch_oracle_contract.
